@@ -2,6 +2,7 @@
 import conc_common as cc
 
 PID = "C06"
+TABLES = ["check_initsnap"]   # harness/tables.py: QueueSnapshotStore.get_initial_snapshot run on every schedule of <= 9 moves against InitSnap.v (D20)
 IMPORTS = cc.IMPORTS
 FUNCS = cc.FUNCS
 SHARD = 40
